@@ -62,6 +62,7 @@ type PathResult struct {
 	FnInstr   map[string]int    `json:"-"`
 	Events    []string          `json:"notes,omitempty"`
 	Sampled   bool              `json:"-"`
+	Preempted bool              `json:"preempted,omitempty"`
 }
 
 type Config struct {
